@@ -309,7 +309,29 @@ def c023(ctx):
         hl = ctx.calls(R, f, r"std::fs::hard_link$")
         ap = ctx.calls(R, f, r"mani::Manifest::_apply$")
         rn = ctx.calls(R, f, r"std::fs::rename$")
-        ctx.order_chain(R, f, [("hard_link(MANIFEST->BACKUP)", hl), ("_apply(tmp)", ap), ("rename(tmp->MANIFEST)", rn)])
+        # the log has a backup before its roll-up is written: the link is bypassed only on the edge on which the log was found to *be* the newest
+        # backup already (a rollover that died after linking is resumed, C13.9)
+        same = set()
+        for b in P.switch_blocks(f):
+            srcs = K.cond_sources(f, b.idx)
+            ident = False
+            for x in srcs:
+                if x["k"] == "call":
+                    if re.search(r"::ino$", x["callee"]):
+                        ident = True
+                    for k_ in ctx.prog.targets(x["t"]):
+                        g = ctx.prog.fns.get(k_)
+                        if g is not None and g.crate in ("mani", "utilz") and g.locals[0] == "bool" and \
+                                any(re.search(r"::ino$", c.get("callee") or "") for _b, c in g.calls()):
+                            ident = True
+            if ident:
+                negs = sum(1 for x in srcs if x["k"] == "un" and x["op"] == "Not")
+                ne = any(x["k"] == "bin" and x["op"] == "Ne" for x in srcs)
+                same.add((b.idx, "sw:1" if (negs + ne) % 2 == 0 else "sw:0"))
+        q = P.reach(f, P.ENTRY, ap, avoid=set(hl), avoid_edges=same) if hl and ap else ()
+        ctx.check(R, f, "backup-before-rollup", q is None, "hard_link(MANIFEST->BACKUP) precedes _apply(tmp) on every path on which the log is not already the newest backup",
+                  "_apply(tmp) is reachable without first passing hard_link(MANIFEST->BACKUP)", pt=ap[0] if ap else None, path=q or None)
+        ctx.order_chain(R, f, [("_apply(tmp)", ap), ("rename(tmp->MANIFEST)", rn)])
         ctx.must_pass(R, f, "rename(tmp->MANIFEST)", rn)
         for pt in hl:
             ctx.check(R, f, "backup-src", any(c.endswith("mani::MANIFEST") for c in K.arg_calls(f, pt, 0)) and
